@@ -26,6 +26,7 @@ type XPath struct {
 	Blocks []*ssa.BasicBlock
 	End    ssa.Instruction // Return, or the stopAt instruction, or nil (panic/dead end)
 	abs    map[ssa.Value]*absVal
+	cond   map[ssa.Value]bool
 }
 
 type absVal struct {
@@ -255,7 +256,7 @@ func (e *explorer) emit(steps []Step, blocks []*ssa.BasicBlock, end ssa.Instruct
 		e.over = true
 		return
 	}
-	e.out = append(e.out, &XPath{Steps: steps, Blocks: blocks, End: end, abs: st.abs})
+	e.out = append(e.out, &XPath{Steps: steps, Blocks: blocks, End: end, abs: st.abs, cond: st.cond})
 }
 
 // Taken reports which edge the path took at the If terminating block containing cond
@@ -328,4 +329,59 @@ func (p *XPath) SelectTaken(sel *ssa.Select, k int) bool {
 		}
 	}
 	return false
+}
+
+// EvalBool evaluates a boolean SSA value in the abstract state at the end of the path:
+// constants, branch conditions already decided on the path, and ==/!= of a tracked value
+// with a constant. ok=false when the path does not determine it.
+func (p *XPath) EvalBool(v ssa.Value) (val bool, ok bool) {
+	if c, isC := v.(*ssa.Const); isC {
+		switch constSym(c) {
+		case "true":
+			return true, true
+		case "false":
+			return false, true
+		}
+		return false, false
+	}
+	if b, has := p.cond[v]; has {
+		return b, true
+	}
+	if u, isU := v.(*ssa.UnOp); isU && u.Op == token.NOT {
+		if b, ok := p.EvalBool(u.X); ok {
+			return !b, true
+		}
+	}
+	if bo, isB := v.(*ssa.BinOp); isB && (bo.Op == token.EQL || bo.Op == token.NEQ) {
+		var sub ssa.Value
+		var k string
+		if kk, ok := constOf(bo.Y); ok {
+			sub, k = bo.X, kk
+		} else if kk, ok := constOf(bo.X); ok {
+			sub, k = bo.Y, kk
+		}
+		if sub != nil {
+			if a, has := p.abs[sub]; has {
+				if a.known {
+					return (a.k == k) == (bo.Op == token.EQL), true
+				}
+				if a.excl[k] {
+					return bo.Op == token.NEQ, true
+				}
+			}
+		}
+	}
+	if ph, isPhi := v.(*ssa.Phi); isPhi {
+		// value of the phi on this path: the edge from the predecessor actually taken
+		for i := len(p.Blocks) - 1; i > 0; i-- {
+			if p.Blocks[i] == ph.Block() {
+				for j, pred := range ph.Block().Preds {
+					if pred == p.Blocks[i-1] {
+						return p.EvalBool(ph.Edges[j])
+					}
+				}
+			}
+		}
+	}
+	return false, false
 }
